@@ -103,7 +103,42 @@ fn main() {
         "matches" => { let v = unhex(&args[2]); match bounded::matches_replay(&v) { Some(d) => { println!("DISAGREE {}", d); std::process::exit(1); } None => println!("AGREE") } }
         "serde" => { let v = unhex(&args[2]); match bounded::serde_check(&v) { Some(d) => { println!("DISAGREE {}", d); std::process::exit(1); } None => println!("AGREE") } }
         "likely" => { let v = unhex(&args[2]); match bounded::likely_check(&String::from_utf8_lossy(&v)) { Some(d) => { println!("DISAGREE {}", d); std::process::exit(1); } None => println!("AGREE") } }
+        "super" => { let v = unhex(&args[2]); match bounded::super_check(&v) { Some(d) => { println!("DISAGREE {}", d); std::process::exit(1); } None => println!("AGREE") } }
         "fromparts" => { let v = unhex(&args[2]); match bounded::fromparts_replay(&v) { Some(d) => { println!("DISAGREE {}", d); std::process::exit(1); } None => println!("AGREE") } }
+        "rawrt" => {
+            // C17 / C12: two subtags of one type: integer round trip through the unchecked constructor, injectivity, == / Ord vs text
+            let ty = args[2].as_str();
+            let (a, b) = (unhex(&args[3]), unhex(&args[4]));
+            let r = std::panic::catch_unwind(|| -> Option<String> {
+                macro_rules! two { ($T:ty, $U:ty) => {{
+                    let (x, y) = (<$T>::from_bytes(&a).ok()?, <$T>::from_bytes(&b).ok()?);
+                    let (ux, uy): ($U, $U) = (x.into(), y.into());
+                    let back = unsafe { <$T>::from_raw_unchecked(ux) };
+                    if back != x || back.as_str() != x.as_str() { return Some(format!("{}: \"{}\" -> {} -> \"{}\" is not the identity", ty, x.as_str(), ux, back.as_str())); }
+                    if (ux == uy) != (x == y) { return Some(format!("{}: \"{}\" and \"{}\" have integer forms {} and {}", ty, x.as_str(), y.as_str(), ux, uy)); }
+                    if (x == y) != (x.as_str() == y.as_str()) || (x < y) != (x.as_str() < y.as_str()) { return Some(format!("{}: == / < of \"{}\" and \"{}\" disagree with their texts", ty, x.as_str(), y.as_str())); }
+                    None
+                }}; }
+                match ty {
+                    "script" => two!(Script, u32),
+                    "region" => two!(Region, u32),
+                    "variant" => two!(Variant, u64),
+                    _ => {
+                        let (x, y) = (Language::from_bytes(&a).ok()?, Language::from_bytes(&b).ok()?);
+                        let (ux, uy): (Option<u64>, Option<u64>) = (x.into(), y.into());
+                        if let Some(raw) = ux { let back = unsafe { Language::from_raw_unchecked(raw) }; if back != x || back.as_str() != x.as_str() { return Some(format!("language \"{}\" -> {} -> \"{}\" is not the identity", x.as_str(), raw, back.as_str())); } }
+                        if (ux == uy) != (x == y) { return Some(format!("languages \"{}\" and \"{}\" have integer forms {:?} and {:?}", x.as_str(), y.as_str(), ux, uy)); }
+                        if (x == y) != (x.as_str() == y.as_str()) { return Some(format!("languages \"{}\" and \"{}\": == disagrees with the texts", x.as_str(), y.as_str())); }
+                        None
+                    }
+                }
+            });
+            match r {
+                Err(_) => { println!("DISAGREE {} b\"{}\" / b\"{}\": the integer round trip PANICKED", ty, esc(&a), esc(&b)); std::process::exit(1); }
+                Ok(Some(d)) => { println!("DISAGREE {}", d); std::process::exit(1); }
+                Ok(None) => println!("AGREE {} b\"{}\" / b\"{}\"", ty, esc(&a), esc(&b)),
+            }
+        }
         "xleaf" => {
             // a leaf parser of the extension code, reached through the public API that calls it (panics are caught)
             use unic_locale_impl::extensions::{PrivateExtensionList, TransformExtensionList, UnicodeExtensionList};
